@@ -568,6 +568,9 @@ class Driver:
                 body.append(p)
             elif how == "raw":
                 body.append(Element.from_tag(arg))
+            elif how == "rawmany":
+                for x in arg:
+                    body.append(Element.from_tag(x))
             elif how == "clear":
                 body.clear()
             else:
@@ -821,8 +824,12 @@ def run_check(prop, checker, layers, make_histories, key_of, tier, seed, replay,
     proofs = common.build_proofs(prop, extra_targets=extra_targets)
     corpus = []
     for f in sorted((common.ROOT / "corpus" / prop).glob("*.json")):
-        corpus.append(json.load(open(f))["ops"])
-    if replay:
+        j = json.load(open(f))
+        if "ops" in j:
+            corpus.append(j["ops"])
+    if replay and "ops" not in json.load(open(replay)):
+        hs, flags = [], []
+    elif replay:
         hs, flags = [json.load(open(replay))["ops"]], [True]
     else:
         gen = make_histories(tier, rng)
@@ -833,7 +840,7 @@ def run_check(prop, checker, layers, make_histories, key_of, tier, seed, replay,
         for i, r in enumerate(recs):
             cases.append(step_case(r)); where.append((hid, i))
             hist_ops[r["kind"]] = hist_ops.get(r["kind"], 0) + 1
-    bad, errors = common.run_shards(PKG_HEADER + header_extra, cases, checker, prop.lower(), shard=shard)
+    bad, errors = common.run_shards(PKG_HEADER + header_extra, cases, checker, prop.lower(), shard=shard) if cases else ({}, [])
     recmap = dict(done)
     violations, known_seen, seen_keys = [], [], set()
     known = {e["key"]: e for e in common.known_findings(prop)}
@@ -860,8 +867,8 @@ def run_check(prop, checker, layers, make_histories, key_of, tier, seed, replay,
             violations.append((rp, False))
     extra_cov = {}
     if post_hook:
-        v2, k2, extra_cov = post_hook(done, recmap, seed, known)
-        violations += v2; known_seen += k2
+        v2, k2, extra_cov, errs2 = post_hook(done, recmap, seed, known, proofs)
+        violations += v2; known_seen += k2; errors = errors + errs2
     harness_failures = [e for _, e in failed if e != "timeout"]
     violations += common.proof_violation(prop, seed, proofs, errors + harness_failures[:3], bool(hard) or bool(violations))
     nontriv = set()
@@ -871,11 +878,14 @@ def run_check(prop, checker, layers, make_histories, key_of, tier, seed, replay,
                 nontriv.add(common.digest((r["kind"], r["op"], r["pre"][:600])))
     samples = [concrete_prefix(recs, len(recs) - 1) for _, recs in done[len(corpus):len(corpus) + 2]]
     coverage = dict(
-        trusted_base=trusted_base, evaluations=len(cases), distinct_nontrivial=len(nontriv), rule=rule,
+        trusted_base=trusted_base, evaluations=len(cases) + extra_cov.pop("evaluations", 0),
+        distinct_nontrivial=len(nontriv) + extra_cov.pop("distinct_nontrivial", 0), rule=rule,
         samples=samples, op_histogram=hist_ops, histories=len(done), histories_timed_out=sum(1 for _, e in failed if e == "timeout"),
         harness_failures=len(harness_failures), corpus_cases=len(corpus),
         fidelity_divergences=sum(1 for c in bad.values() if c == fidelity_code), fidelity_by_op=fid,
         violation_keys=sorted(seen_keys), exhaustive=False)
+    if extra_cov.get("samples"):
+        coverage["samples"] = coverage["samples"] + extra_cov.pop("samples")
     coverage.update(extra_cov)
     cleanup(work)
     return common.finish(prop, tier, seed, proofs, coverage, violations, known_seen, t0, assumptions=assumptions)
@@ -886,3 +896,92 @@ PKG_TRUSTED = [
     "modelled in Package.v: Container.__parts/__parts_ts/get_part/set_part/del_part/parts/clone/save/_save_zip/_save_folder/_xml_content, Document.__xmlparts/get_part/set_part/del_part/_add_binary_part/_check_manifest_rdf/save/clone, container_from_template, XmlPart lazy parse / serialize / pretty_serialize, Manifest.get/set_media_type/add_full_path/del_full_path",
     "abstract in the model (taken from the run): hash names of add_file, media-type guessing, the '-template' string replacement, the effect of an edit on a tree, lxml parse/serialise (par (ser x) = x)",
 ]
+
+
+# ------------------------------------------------------------------ C11: TEXT_CONTENT table and tree abstraction
+TAG_FIXED = {"text:p": 1, "text:h": 2, "text:span": 3, "text:a": 4, "text:meta": 5, "text:meta-field": 6, "text:s": 7, "text:tab": 8,
+             "text:line-break": 9, "office:binary-data": 10}
+
+
+def read_text_content(repo=None):
+    """the set literal TEXT_CONTENT of src/odfdo/container.py, read with ast; fail closed on any other shape"""
+    import ast
+    src = (Path(repo or common.REPO) / "src" / "odfdo" / "container.py").read_text()
+    found = None
+    for node in ast.parse(src).body:
+        if isinstance(node, ast.Assign) and len(node.targets) == 1 and isinstance(node.targets[0], ast.Name) and node.targets[0].id == "TEXT_CONTENT":
+            v = node.value
+            if not isinstance(v, ast.Set) or not all(isinstance(e, ast.Constant) and isinstance(e.value, str) for e in v.elts):
+                raise RuntimeError("TEXT_CONTENT is not a set literal of strings: translator stops (fail closed)")
+            if found is not None:
+                raise RuntimeError("TEXT_CONTENT assigned twice")
+            found = sorted(set(e.value for e in v.elts))
+    if found is None:
+        raise RuntimeError("TEXT_CONTENT not found in container.py")
+    # nothing else may touch it
+    if re.search(r"TEXT_CONTENT\s*(\.|\[|\|=|-=|\+=)", src) or len(re.findall(r"\bTEXT_CONTENT\b\s*=", src)) != 1:
+        raise RuntimeError("TEXT_CONTENT is modified after its definition: translator stops (fail closed)")
+    return found
+
+
+def tag_table(tc):
+    """name -> id for the members of TEXT_CONTENT and the fixed tags"""
+    tab = dict(TAG_FIXED)
+    for i, n in enumerate(x for x in tc if x not in TAG_FIXED):
+        tab[n] = 100 + i
+    return tab
+
+
+def write_gen_text_content(repo=None):
+    tc = read_text_content(repo)
+    tab = tag_table(tc)
+    ids = [tab[n] for n in tc]
+    txt = ("(* GENERATED on every run by harness/pkglib.py from TEXT_CONTENT in src/odfdo/container.py (%d names). Do not edit. *)\n"
+           "From Coq Require Import List ZArith Bool. Import ListNotations.\nOpen Scope Z_scope.\n"
+           "Definition text_content : list Z := [%s].\n"
+           "Definition textual (t : Z) : bool := existsb (Z.eqb t) text_content.\n" % (len(tc), "; ".join(str(i) for i in ids)))
+    p = common.TH / "Gen_TextContent.v"
+    if not p.exists() or p.read_text() != txt:
+        p.write_text(txt)
+    return tc, tab
+
+
+class TreeAbs:
+    def __init__(self, tab):
+        self.tab = dict(tab); self.dyn = 10000; self.chars = {}; self.atts = {}
+
+    def tag(self, e):
+        q = "%s:%s" % (e.prefix, etree.QName(e).localname)
+        v = self.tab.get(q)
+        if v is None:
+            v = self.tab[q] = self.dyn; self.dyn += 1
+        return v
+
+    def s(self, t):
+        if not t:
+            return "[]"
+        out = []
+        for ch in t:
+            if ch == " ": out.append("Sp")
+            elif ch == "\t": out.append("Tb")
+            elif ch in "\n\r": out.append("Nl")
+            else:
+                k = self.chars.get(ch)
+                if k is None:
+                    k = self.chars[ch] = len(self.chars) + 1
+                out.append("Ch %d" % k)
+        return "[" + ";".join(out) + "]"
+
+    def node(self, e):
+        kids = [c for c in e if isinstance(c.tag, str)]
+        if len(kids) != len(e):
+            raise ValueError("comment or processing instruction inside the tree")
+        a = repr(sorted(e.attrib.items()))
+        ai = self.atts.setdefault(a, len(self.atts))
+        c = 0
+        if e.tag == T + "s":
+            try:
+                c = int(e.get(T + "c") or 1)
+            except ValueError:
+                c = 1
+        return "Node %d %d %d %s [%s] %s" % (self.tag(e), c, ai, self.s(e.text), ";".join(self.node(k) for k in kids), self.s(e.tail))
